@@ -360,6 +360,17 @@ def rule_d(ctx):
     f = m.func(RES, "uniform_refinement")
     ctx.instance(R)
     img = f.params[0]
+    # named contradiction: np.kron aligns the LAST axes of its operands, so a block with one entry per spatial axis applied to the whole data
+    # array lands on the payload axes of series / vector images (an (h, w, c) image becomes (h, 2w, 2c))
+    for c_ in ast.walk(f.node):
+        if isinstance(c_, ast.Call) and norm(c_.func) == "np.kron" and len(c_.args) == 2:
+            blk = norm(expand_in(f.node, c_.args[1])) if False else norm(c_.args[1])
+            if "space_dim" in blk or "ndim" not in blk:
+                ctx.ob(R, f.qname, "refinement repeats each voxel along the spatial axes only", False,
+                       f"`{norm(c_)[:90]}`: np.kron pads the block's shape on the left, i.e. applies it to the trailing axes -- for data with time or component axes the spatial "
+                       "axes are not (all) refined and the payload axes are", c_, evidence=True)
+                ctx.floor(R, 1)
+                return
     am = AM(f)
     ctx.ob(R, f.qname, "refinement repeats twice along each of range(space_dim)", am.has(f.node, f"array = {img}.img.copy()") is not None
            and am.has(f.node, f"for i in range({img}.space_dim):\n    array = np.repeat(array, 2, axis=i)") is not None, "", f.node)
